@@ -346,6 +346,21 @@ impl<B> Call<WithBody, B> {
         Ok(())
     }
 
+    /// Proceed to receiving a response without sending the body.
+    ///
+    /// Used for expect-100 when the server responds with something else than 100-continue.
+    pub(crate) fn into_receive_without_body(self) -> Call<RecvResponse, B> {
+        Call {
+            request: self.request,
+            analyzed: self.analyzed,
+            state: BodyState {
+                phase: Phase::RecvResponse,
+                ..self.state
+            },
+            _ph: PhantomData,
+        }
+    }
+
     pub(crate) fn is_prelude(&self) -> bool {
         self.state.phase.is_prelude()
     }
